@@ -23,6 +23,7 @@ def run(ctx, res):
     bitio.rule_guard_cursor(prog, res, bitio.PARSE, 2)
     bitio.rule_merge(prog, res)
     bitio.rule_bitsem(prog, res)
+    bitio.rule_signsem(prog, res)
     bitio.rule_r_width(prog, res)
     bitio.rule_r_kind(prog, res)
     # the reviewed lower bound of the MSM cell-mask width relies on the MSM guards
